@@ -180,6 +180,24 @@ Theorem C19_manager_invariant_all_histories : forall t ops,
 Proof. intros t ops. exact (pm_history_inv t ops pm_init pm_wf_init). Qed.
 Print Assumptions C19_manager_invariant_all_histories.
 
+(* The wrapper never writes into the configuration it was given.  In the model the wrapper step
+   (pm_wstep) has the entry's configuration only as a read-only component, and over every history
+   the configuration value held for a name is exactly a value UpdateAll was given for that name
+   (first entry of the name in some loaded set).  This is what makes "deep-equal to a freshly loaded
+   copy" in C19_converges_to_last_config / C19_duplicate_names_stable mean "unchanged in the file";
+   the reconcile driver checks the corresponding observable on the real code: after NewWrapper and
+   at every later step the object the wrapper holds deep-equals a pristine rebuild of the loaded
+   configuration (also for health checks that leave intervalSeconds / timeoutSeconds / maxFailed unset). *)
+Theorem C19_wrapper_never_mutates_config :
+  (forall t e o, pe_cfg (fst (pm_wstep t e o)) = pe_cfg e /\ pe_id (fst (pm_wstep t e o)) = pe_id e) /\
+  (forall t s o, pm_wf s -> forall n e', rc_get (pm_map (fst (pm_step t s o))) n = Some e' ->
+     (exists e, rc_get (pm_map s) n = Some e /\ pe_cfg e' = pe_cfg e /\ pe_id e' = pe_id e) \/
+     (exists cfgs, o = PMUpdate cfgs /\ rc_first cfgs n = Some (pe_cfg e'))) /\
+  (forall t ops n e, rc_get (pm_map (fst (pm_run t pm_init ops))) n = Some e ->
+     exists cfgs, In (PMUpdate cfgs) ops /\ rc_first cfgs n = Some (pe_cfg e)).
+Proof. split; [exact pm_wstep_keeps_cfg|]. split; [exact pm_step_keeps_cfg|exact pm_stored_cfg_history]. Qed.
+Print Assumptions C19_wrapper_never_mutates_config.
+
 (* ================= monitor composed with wrapper ================= *)
 
 (* One statement from probe outcomes to NewProxy / CloseProxy.  A health-checked wrapper and its
